@@ -197,6 +197,22 @@ def main():
         pos = [(re.search(rx, fb).start(), n) for n, rx in marks if re.search(rx, fb)]
         if len(pos) == len(marks):
             fts = "some [" + ", ".join(f'"{n}"' for _, n in sorted(pos)) + "]"
+    # the thread-list loop: is the crash-context thread gathered without a stack-length cap? (the first call of
+    # fill_thread_stack in `write` is the crash-context branch)
+    wm = re.search(r"pub fn write\(.*?\n\}\n", tl, re.S)
+    crash_unlimited = "none"
+    if wm:
+        calls = re.findall(r"fill_thread_stack\((.*?)\)\?;", wm.group(0), re.S)
+        if len(calls) == 2 and "crash_context" in wm.group(0).split("fill_thread_stack(")[0]:
+            last_arg = calls[0].strip().rstrip(",").split(",")[-1].strip()
+            crash_unlimited = "some true" if last_arg == "MaxStackLen::None" else "some false"
+    # application memory: is the recorded descriptor the location of what was copied?
+    am = read("src/linux/sections/app_memory.rs")
+    app_desc = "none"
+    if re.search(r"write_bytes\(buffer,\s*&data_copy\)", am):
+        m2 = re.search(r"memory:\s*([^,\n]+),", am)
+        if m2:
+            app_desc = "some true" if m2.group(1).strip() == "section.location()" else "some false"
     out = []
     out.append("/- GENERATED by gen/extract.py from /repo's source — do not edit. -/")
     out.append("namespace Mdw.Src\n")
@@ -218,6 +234,8 @@ def main():
     out.append("\n/-- the fallible steps of PtraceDumper::init: (name, failure is pushed as a soft error; none = not recognisable) -/\ndef initSteps : List (String × Option Bool) := [" +
                ", ".join(f'("{n}", {b})' for n, b in init_steps) + "]")
     out.append(f"\n/-- the steps of fill_thread_stack in source order (none = not recognisable) -/\ndef fillThreadStackSteps : Option (List String) := {fts}")
+    out.append(f"\n/-- the crash-context thread's stack is gathered with `MaxStackLen::None` (none = not recognisable) -/\ndef crashThreadUnlimited : Option Bool := {crash_unlimited}")
+    out.append(f"\n/-- an application region's descriptor is the location of the bytes that were copied (none = not recognisable) -/\ndef appDescriptorOfCopy : Option Bool := {app_desc}")
     out.append("\nend Mdw.Src\n")
     text = "\n".join(out)
     os.makedirs(os.path.dirname(OUT), exist_ok=True)
